@@ -203,6 +203,54 @@ def dict_keys_of(act: Action, dname: Optional[str] = None) -> Tuple[Set[str], Li
     return keys, merged
 
 
+def dedup_obligations(ctx, col: Collector, rule: str, fns) -> None:
+    """In the parser's collecting functions, a blueprint is stored into `self.<coll>` unconditionally - never under `x not in self.<coll>`: blueprint
+    equality is structural, so such a guard silently drops a declared element that equals an earlier one (the duplicate then never reaches the
+    database's own duplicate checks)."""
+    from ..paths import function_paths
+    from ..cond import term, conjuncts
+    n = 0
+    for fi in fns:
+        bad = {}
+        for path in function_paths(fi.node, unroll=1):
+            lits = []
+            for ev in path:
+                if ev.kind == 'test':
+                    lits.extend(conjuncts(term(ev.node, ev.outcome)))
+                    continue
+                if ev.node is None:
+                    continue
+                for c in ast.walk(ev.node):
+                    if isinstance(c, ast.Call) and isinstance(c.func, ast.Attribute) and c.func.attr in ('append', 'extend', 'add', 'insert') \
+                            and (access_path(c.func.value) or '').startswith('self.') and c.args:
+                        recv = access_path(c.func.value)
+                        n += 1
+                        for l in lits:
+                            if l[0] == 'not' and isinstance(l[1], tuple) and l[1][0] == 'in' and len(l[1]) >= 3 and l[1][2] == recv:
+                                bad[recv] = (c, l)
+        seen = set()
+        for path in function_paths(fi.node, unroll=1):
+            for ev in path:
+                if ev.node is None or ev.kind == 'test':
+                    continue
+                for c in ast.walk(ev.node):
+                    if isinstance(c, ast.Call) and isinstance(c.func, ast.Attribute) and c.func.attr in ('append', 'extend', 'add', 'insert') \
+                            and (access_path(c.func.value) or '').startswith('self.') and c.args:
+                        recv = access_path(c.func.value)
+                        if recv in seen:
+                            continue
+                        seen.add(recv)
+                        cons = f'{fi.qualname}:stores-unconditionally:{recv}'
+                        if recv in bad:
+                            c2, l = bad[recv]
+                            col.bad(rule, cons, f'{fi.qualname} stores into {recv} only when the element is `not in {recv}`: a declared element that equals an earlier one '
+                                    f'(blueprints compare structurally) is dropped silently - it is missing from the model and never reaches the duplicate checks of the '
+                                    f'database', node=c2, file=fi.file)
+                        else:
+                            col.ok(rule, cons, f'{recv} is filled without a de-duplicating guard', node=c, file=fi.file)
+    col.floor(rule, 'stores into parser collections', n, 6)
+
+
 def run(ctx, col: Collector):
     idx = ctx.idx
     gm = acquire_grammar(ctx, col, 'C01-grammar')
@@ -553,10 +601,22 @@ def run(ctx, col: Collector):
         # iteration is forward and unfiltered
         for n in walk_no_nested(bd.node):
             if isinstance(n, ast.For):
-                okf = isinstance(n.iter, ast.Attribute)
-                col.check(okf, 'C01-wiring', f'build_database:for:{norm(n.iter)[:40]}', 'collection iterated forwards, unfiltered',
-                          f'build_database iterates `{norm(n.iter)}` (not the plain collection): elements are reordered, filtered or duplicated',
-                          node=n, file=bd.file)
+                it = n.iter
+                reshaped = None
+                if isinstance(it, ast.Call) and isinstance(it.func, ast.Name) and it.func.id in ('sorted', 'reversed', 'set', 'frozenset'):
+                    reshaped = f'{it.func.id}(...)'
+                elif isinstance(it, ast.Subscript) and isinstance(it.slice, ast.Slice):
+                    reshaped = 'a slice'
+                elif isinstance(it, (ast.ListComp, ast.GeneratorExp, ast.SetComp)) and any(g.ifs for g in it.generators):
+                    reshaped = 'a filtered comprehension'
+                cons = f'build_database:for:{norm(it)[:40]}'
+                if reshaped:
+                    col.bad('C01-wiring', cons, f'build_database iterates `{norm(it)}` ({reshaped}): elements are reordered, filtered or deduplicated before they are built',
+                            node=n, file=bd.file)
+                else:
+                    col.ok('C01-wiring', cons, 'iterated forwards, unfiltered', node=n, file=bd.file)
+        # nothing that was declared is dropped on the way: no store into a parser collection is guarded by "not already in that collection"
+        dedup_obligations(ctx, col, 'C01-wiring', [pb, bd])
         # Database.add dispatch covers what the builds return
         db = idx.cls('pydbml.database', 'Database')
         add = db.methods.get('add')
@@ -707,15 +767,26 @@ def run(ctx, col: Collector):
             raise Unrecognised(f'{len(bools)} literal-word alternatives among the default values')
         b = bools[0]
         texts = {t for t, _, _ in gt.vocab_of(b)}
-        lam = [a for a in b.actions if a.kind == 'lambda']
+        from ..grammar import action_value
+
+        def valued(g_):
+            out = []
+            for a_ in g_.actions:
+                if a_.kind in ('lambda', 'func') and a_.node is not None:
+                    mt = idx.modules[a_.module].tree if a_.module in idx.modules else None
+                    e_ = action_value(a_, mt)
+                    if e_ is not None and not (isinstance(e_, ast.Constant) and e_.value is None):
+                        out.append((a_, e_))
+            return out
+        lam = valued(b)
         table = None
-        if lam and isinstance(lam[0].node.body, ast.Subscript) and isinstance(lam[0].node.body.value, ast.Dict):
-            dct = lam[0].node.body.value
+        if lam and isinstance(lam[0][1], ast.Subscript) and isinstance(lam[0][1].value, ast.Dict):
+            dct = lam[0][1].value
             table = {}
             for k, v in zip(dct.keys, dct.values):
                 if isinstance(k, ast.Constant) and isinstance(v, ast.Constant):
                     table[k.value] = v.value
-            sub_ok = norm(lam[0].node.body.slice) == f'{lam[0].tok_param()}[0]'
+            sub_ok = norm(lam[0][1].slice) == f'{lam[0][0].tok_param()}[0]'
         if table is None:
             raise Unrecognised('boolean default action is not a dict lookup on tok[0]')
         col.check(set(table) == texts and sub_ok, 'C01-default', 'boolean:keys',
@@ -731,17 +802,19 @@ def run(ctx, col: Collector):
         nums = [a for a in alts if any(t.kind == 'word' and t.a['init'] == frozenset('0123456789') for t in gt.first_tokens(a))]
         if len(nums) != 1:
             raise Unrecognised('number alternative of the default values not found')
-        nlam = [a for a in nums[0].actions if a.kind == 'lambda']
+        nlam = valued(nums[0])
         okn = False
-        if nlam and isinstance(nlam[0].node.body, ast.IfExp):
-            ie = nlam[0].node.body
-            tp = nlam[0].tok_param()
+        if nlam and isinstance(nlam[0][1], ast.IfExp):
+            ie = nlam[0][1]
+            tp = nlam[0][0].tok_param()
             t = ie.test
             okn = (isinstance(t, ast.Compare) and isinstance(t.ops[0], ast.In) and isinstance(t.left, ast.Constant) and t.left.value == '.'
                    and norm(t.comparators[0]) == f'{tp}[0]' and isinstance(ie.body, ast.Call) and norm(ie.body.func) == 'float'
                    and isinstance(ie.orelse, ast.Call) and norm(ie.orelse.func) == 'int' and norm(ie.orelse.args[0]) == f'{tp}[0]')
+        if not nlam or not isinstance(nlam[0][1], ast.IfExp):
+            raise Unrecognised('the number default action is not read as a conditional conversion')
         col.check(okn, 'C01-default', 'number:kind', 'a number with a dot becomes float, without one int',
-                  f'number default action `{norm(nlam[0].node.body) if nlam else ""}` does not choose float iff the literal contains a dot',
+                  f'number default action `{norm(nlam[0][1]) if nlam else ""}` does not choose float iff the literal contains a dot',
                   node=_N(nums[0]), file=nums[0].file)
         kinds = []
         for a in alts:
